@@ -9,7 +9,8 @@
   * The OpenAPI schema is a parameter `Schema := path → Option SchInfo` (field path from the document root; list
     elements do not extend the path).  `none` = "no schema here".
   * Recursion into children found by lookups is not structural: fuel (kernel-evaluable).
-  * Merge-key lists with more than one key (`mergeValues`/`validateKeys`) are outside the model: `.err "unmodelled"`.
+  * Merge-key lists with more than one key are modelled (`mergeValues`, `validateKeys`, `setAssocLoopN`), except when
+    `mergeValues` makes two rows equal (an element lacking every key next to a keyed one): `.err "unmodelled"`.
   * merge3 compares serialised text (`RNode.String()` with a forced style); `ser` is that third-party function,
     a parameter (the driver uses structural equality up to the top-level style, validated by the correspondence).
 -/
@@ -277,6 +278,132 @@ def setAssocLoop (o : Opts) (same : Bool) (rec : Sources → Out WRes) (key : St
             | .err c => .err c
             | .panic c => .panic c
 
+/-! ### lists with several merge keys (`x-kubernetes-list-map-keys: [containerPort, protocol]`) -/
+
+def elemKeyTexts (keys : List String) (e : Node) : List String := keys.map fun k => elemKeyText k e
+
+def dedupL (xs : List (List String)) : List (List String) :=
+  xs.foldl (fun acc x => if acc.contains x then acc else acc ++ [x]) []
+
+/-- `elementValues(keys)` -/
+def elementValuesN (prepend : Bool) (keys : List String) (srcs : Sources) : List (List String) :=
+  dedupL ((orderedSources prepend srcs).flatMap fun s => (itemsOf s).map (elemKeyTexts keys))
+
+/-- `match`: equal length, no position where both are set and differ; `common` = some position is equal -/
+def matchVals (v1 v2 : List String) : Bool × List String :=
+  if v1.length ≠ v2.length then (false, [])
+  else
+    let ps := v1.zip v2
+    if ps.any (fun p => p.1 ≠ p.2 ∧ p.1 ≠ "" ∧ p.2 ≠ "") then (false, [])
+    else (ps.any (fun p => p.1 = p.2), ps.map fun p => if p.1 = p.2 then p.1 else if p.1 ≠ "" then p.1 else p.2)
+
+/-- `mergeValues`: the two nested `range` loops with their in-place updates (`values1` is read when iteration `i`
+    starts, `values2` when iteration `j` is reached) -/
+def mergeValues (vl : List (List String)) : List (List String) :=
+  let n := vl.length
+  (List.range n).foldl (fun vl i =>
+    let v1 := vl.getD i []
+    (List.range n).foldl (fun vl j =>
+      match matchVals v1 (vl.getD j []) with
+      | (true, res) => (vl.set i res).set j res
+      | _ => vl) vl) vl
+
+/-- `validateKeys`: only the keys for which SOME row has a value count -/
+def validateKeys (vl : List (List String)) (values keys : List String) : List String × List String :=
+  let has (k : String) : Bool := vl.any fun row => (keys.zip row).any fun p => p.1 = k ∧ p.2 ≠ ""
+  if !(keys.any has) then (keys, values)
+  else (keys.filter has, ((keys.zip values).filter fun p => p.2 ≠ "" || has p.1).map (·.2))
+
+def elemMatchesN (ks vs : List String) (e : Node) : Bool :=
+  match e with
+  | .map _ fs => ks.length = vs.length && (ks.zip vs).all fun p =>
+      (match fieldGet p.1 fs with | some x => x.valueText = p.2 | none => false)
+  | _ => false
+
+/-- `Sources[i].ElementList(keys, values)` -/
+def elementOfN (ks vs : List String) : Option Node → Option Node
+  | some (.seq _ is) => is.find? (elemMatchesN ks vs)
+  | _ => none
+
+def replaceElemN (ks vs : List String) (n : Node) : List Node → List Node
+  | [] => []
+  | e :: es => if elemMatchesN ks vs e then n :: es else e :: replaceElemN ks vs n es
+
+/-- `appendListNode(dst, src, keys)` with two or more keys -/
+def appendListItemsN (keys : List String) (dst : List Node) : List Node → Out (List Node)
+  | [] => .ok dst
+  | e :: es =>
+    -- collect the key values; a missing key appends the element at once and the loop goes on
+    let step (acc : Out (List Node × List String)) (key : String) : Out (List Node × List String) :=
+      match acc with
+      | .ok (d, v) =>
+        (match fieldMatcher key none (some e) with
+          | .ok (some x) => .ok (d, v ++ [x.valueText])
+          | .ok none => .ok (d ++ [e], v)
+          | .err c => .err c
+          | .panic c => .panic c)
+      | o => o
+    match keys.foldl step (.ok (dst, [])) with
+    | .err c => .err c
+    | .panic c => .panic c
+    | .ok (d, v) =>
+      match elementSetter keys v none (.seq 0 d) with
+      | .ok (.seq _ d1, _) =>
+        (match elementSetter keys v (some e) (.seq 0 d1) with
+          | .ok (.seq _ d2, _) => appendListItemsN keys d2 es
+          | .ok _ => .err "unmodelled"
+          | .err c => .err c
+          | .panic c => .panic c)
+      | .ok _ => .err "unmodelled"
+      | .err c => .err c
+      | .panic c => .panic c
+
+/-- the loop of `setAssociativeSequenceElements` for several keys; returns dest, added and the LAST valid keys -/
+def setAssocLoopN (o : Opts) (same : Bool) (rec : Sources → Out WRes) (keys : List String) (srcs : Sources)
+    (all : List (List String)) :
+    List (List String) → List Node → List Node → List String → Out (List Node × List Node × List String)
+  | [], dest, added, lastKeys => .ok (dest, added, lastKeys)
+  | values :: vs, dest, added, _ =>
+    let (vKeys, vVals) := validateKeys all values keys
+    -- elementValueList validates once more against this row alone
+    let (k2, v2) := validateKeys [vVals] vVals vKeys
+    let others := if same then some (.seq 0 dest) :: srcs.tail.tail else srcs.tail
+    match rec (elementOfN k2 v2 (some (.seq 0 dest)) :: others.map (elementOfN k2 v2)) with
+    | .err c => .err c
+    | .panic c => .panic c
+    | .ok w =>
+      let val := w.node
+      if isMissingOrNull val || (match val with | some n => n.isEmptyMap | none => true) then
+        match elementSetter vKeys vVals none (.seq 0 dest) with
+        | .ok (.seq _ d', _) => setAssocLoopN o same rec keys srcs all vs d' added vKeys
+        | .ok _ => .err "unmodelled"
+        | .err c => .err c
+        | .panic c => .panic c
+      else
+        match val with
+        | none => .err "unmodelled"
+        | some n =>
+          let fix (acc : Out Node) (kv : String × String) : Out Node :=
+            match acc with
+            | .ok (.map s fs) =>
+              if kv.2 = "" ∨ (fieldGet kv.1 fs).isSome then .ok (.map s fs)
+              else (match fieldSetter o.ns kv.1 (some (.scalar "" kv.2 0)) false false (.map s fs) with
+                | .ok (n', _) => .ok n'
+                | .err c => .err c
+                | .panic c => .panic c)
+            | .ok _ => .err "unmodelled"
+            | e => e
+          match (vKeys.zip vVals).foldl fix (.ok n) with
+          | .err c => .err c
+          | .panic c => .panic c
+          | .ok n' =>
+            let dest := if w.alias then replaceElemN k2 v2 n' dest else dest
+            match elementSetter vKeys vVals (some n') (.seq 0 added) with
+            | .ok (.seq _ a', _) => setAssocLoopN o same rec keys srcs all vs dest a' vKeys
+            | .ok _ => .err "unmodelled"
+            | .err c => .err c
+            | .panic c => .panic c
+
 def bindO {α β} (x : Out α) (f : α → Out β) : Out β := x.bind f
 
 /-- `Walker.Walk` -/
@@ -353,7 +480,36 @@ def walk (V : Visitor) (o : Opts) (keysTbl : List String) (sch : Schema) :
               | .panic c => .panic c
               | .ok keys =>
                 match keys with
-                | _ :: _ :: _ => .err "unmodelled"
+                | _ :: _ :: _ =>
+                  let all := mergeValues (elementValuesN o.prepend keys srcs')
+                  let destItems := itemsOf (some dest0)
+                  -- two rows made equal by `mergeValues` are walked twice, and the second walk sees the patch element
+                  -- as the first one left it (directive elided IN PLACE): that aliasing is outside the tree model
+                  if (dedupL all).length ≠ all.length then .err "unmodelled" else
+                  match setAssocLoopN o same' (rec' same' path) keys srcs' all all destItems [] keys with
+                  | .err c => .err c
+                  | .panic c => .panic c
+                  | .ok (d1, added, lastKeys) =>
+                    let app (a b : List Node) : Out (List Node) :=
+                      match lastKeys with
+                      | [k] => appendListItems k a b
+                      | _ => appendListItemsN lastKeys a b
+                    let fin : Out (List Node × Nat) :=
+                      if all = [] then .ok (d1, dest0.style)
+                      else if o.prepend then
+                        (match app added d1 with
+                          | .ok l => .ok (l, 0)
+                          | .err c => .err c
+                          | .panic c => .panic c)
+                      else
+                        (match app d1 added with
+                          | .ok l => .ok (l, dest0.style)
+                          | .err c => .err c
+                          | .panic c => .panic c)
+                    match fin with
+                    | .ok (l, st) => .ok {node := some (.seq st l), alias := (r.alias || same) && !(o.prepend && all ≠ [])}
+                    | .err c => .err c
+                    | .panic c => .panic c
                 | _ =>
                   let key := keys.headD ""
                   let values :=
